@@ -1102,6 +1102,52 @@ def search(ctx):
         ctx.count("search:" + stream + ":" + (spf["kind"] if spf["kind"] == "rigidbody" else innermost(spf)["kind"]),
                   key=repr(spf), nontrivial=not is_identity(sp))
         held += bool(run_oracle(ctx, sp, rng_np))
+    # colliders that were MOVED: built at one pose, then update_pose() to another one — through a fresh array or
+    # through one caller-owned 4x4 buffer that is overwritten in place (the collider may hold a reference to it);
+    # aabb() must describe the set at the CURRENT pose
+    moved = ctx.budget(600, 15000)
+    for i in range(moved):
+        stream = "L" if rng.random() < 0.4 else "G"
+        spA = gen_prim(rng, stream, rng.choice(["box", "capsule", "cylinder", "cone", "mesh"]))
+        spB = dict(spA)
+        rot = gen_rot(rng, stream)
+        if isinstance(rot, tuple):      # (tag, matrix) or (matrix, tag)
+            tag = [x for x in rot if isinstance(x, str)]
+            mat = [x for x in rot if not isinstance(x, str)]
+            rot = mat[0]
+            if tag and "rot" in spB:
+                spB["rot"] = tag[0]
+        spB["R"], spB["t"] = rot, gen_t(rng, stream)
+        wrap = rng.random() < 0.25
+        if wrap:
+            m = gen_size(rng, stream)
+            spA, spB = {"kind": "margin", "inner": spA, "m": m}, {"kind": "margin", "inner": spB, "m": m}
+        fa, fb = fl(spA), fl(spB)
+        ia, ib = innermost(fa), innermost(fb)
+        reuse = rng.random() < 0.5
+        ctx.count("search:moved:" + ("reuse" if reuse else "fresh"), key=repr((fa, fb)))
+
+        def run_moved():
+            from distance3d import colliders as K
+            buf = pose4(ia["R"], ia["t"])
+            k = ia["kind"]
+            if k == "box":
+                c = K.Box(buf, arr(ia["size"]))
+            elif k == "mesh":
+                c = K.MeshGraph(buf, arr(ia["vertices"]).reshape(-1, 3), np.array(ia["triangles"], dtype=int).reshape(-1, 3))
+            else:
+                c = {"capsule": K.Capsule, "cylinder": K.Cylinder, "cone": K.Cone}[k](buf, ia["r"], ia["h"])
+            if wrap:
+                c = K.Margin(c, fa["m"])
+            c.aabb()
+            if reuse:
+                buf[...] = pose4(ib["R"], ib["t"])
+                c.update_pose(buf)
+            else:
+                c.update_pose(pose4(ib["R"], ib["t"]))
+            return c.aabb()
+        held += bool(check_collider(ctx, fb, rng_np, type_name(fb) + ".aabb after update_pose"
+                                    + (" (pose buffer reused in place)" if reuse else ""), as_res(run_moved)))
     # consequence for the broad phase: colliders sharing a point have overlapping boxes (closed-interval test)
     from distance3d.aabb_tree import aabb_overlap
     pairs = ctx.budget(800, 20000)
